@@ -113,7 +113,8 @@ def _run_main(ctx):
     # ------------------------------------------------------------------ solver calls
     ncall = ctx.n(260, 6000)
     for i in range(ncall):
-        mode = rng.choice(["ss", "as", "aa", "aa", "aa", "22", "alias"])
+        # "a1": array of frequencies with a ONE-ELEMENT depth array (numpy broadcasting, like a scalar depth)
+        mode = rng.choice(["ss", "as", "a1", "aa", "aa", "aa", "22", "alias"])
         n = rng.choice([1, 1, 2, 3, 5, 8, 13, 24, 40])
         custom = rng.random() < 0.25
         g, tol, fuel = G0, TOL0, 10
@@ -122,7 +123,7 @@ def _run_main(ctx):
             tol = rng.choice([1e-3, 1e-2, 1e-5, 1e-8])
             fuel = rng.choice([1, 2, 3, 10, 20])
         pts = [gen_point(rng, g) for _ in range(n)]
-        if mode == "as":
+        if mode in ("as", "a1"):
             d0 = pts[0][1]
             pts = [(w, d0, t) for (w, _, t) in pts]
         shape = None
